@@ -93,6 +93,8 @@ _op('unjoin(key)[0]', 'u', lambda t, kw: etl.unjoin(t[0], 'v', key='k', **kw)[0]
 _op('unjoin(key)[1]', 'u', lambda t, kw: etl.unjoin(t[0], 'v', key='k', **kw)[1], [K])
 # binary: same header ('k', 'v', 'id') on both sides
 _op('mergesort', 'm', lambda t, kw: etl.mergesort(t[0], t[1], key='k', **kw), [K, K])
+# key=None takes a different branch of MergeSortView (sort over cat): strategy arguments must arrive there too (wave 9)
+_op('mergesort(lex)', 'm', lambda t, kw: etl.mergesort(t[0], t[1], **kw))
 _op('merge', 'm', lambda t, kw: etl.merge(t[0], t[1], key='k', **kw), [K, K])
 # binary joins: left ('k','v','id'), right ('k','w','rid')
 for _nm, _f in [('join', etl.join), ('leftjoin', etl.leftjoin), ('rightjoin', etl.rightjoin),
